@@ -23,6 +23,8 @@ Data spec (ints are reduced modulo the number of options):
              4 empty line at the end, 5 final line of spaces without newline
     filters  {accept, items: up to 3 x [col, op, val, quote, sp]}, style: rendering variants
     nl       final newline present
+    miss     up to 2 x [row, k, f]: the missing data token -99 is put into the column of filter k (when
+             there are filters; odd f also makes that filter a numeric comparison) or into item k of the row
     pk       (model mode) pk % 6 >= 3: $PK model with marker column pk % 3: 0 MDV, 1 EVID, 2 only AMT
 """
 
@@ -80,6 +82,7 @@ DATASPEC = st.fixed_dictionaries(
         style=st.integers(0, 63),
         nl=st.sampled_from([True, True, True, False]),
         pk=st.sampled_from([0, 0, 0, 0, 3, 4, 5]),
+        miss=st.one_of(st.just([]), st.lists(st.tuples(st.integers(0, 7), st.integers(0, 7), st.integers(0, 15)).map(list), min_size=1, max_size=2)),
     )
 )
 
@@ -344,55 +347,58 @@ def build(spec, mode='lexical'):
         while len(f) < m:
             f.append(str(len(f) % 10))
     # lines
-    comment_lead = ic if ic not in (None, '@') else '#'
-    lines = []
-    if spec.get('header', 0) % 2:
-        lines.append(','.join(names))
-    for r, its, t in zip(rows, texts, kinds):
-        if t == 0:
-            lines.append(_render_row(its, r))
-        elif t == 1:
-            body = ['comment 1,2 \t3', 'x', '', ' 1 2 3', ',,.'][r.get('lead', 0) % 5]
-            if ic == '@':
-                lines.append(['', ' ', '\t', '  '][r.get('trail', 0) % 4] + ['T', 'a', '#', 'Z9'][r.get('step', 0) % 4] + body)
-            else:
-                lines.append(comment_lead + body)
-        else:
-            lines.append('#' + ['', ' note', '1,2,3'][r.get('lead', 0) % 3])
-    err = spec.get('err', 0) % 6
-    pos = spec.get('errpos', 0)
-    b.err = err
-    if err == 1:
-        lines.insert(pos % (len(lines) + 1), '')
-    elif err == 2:
-        lines.insert(pos % (len(lines) + 1), [' ', '   ', '\t', '\t\t'][pos % 4])
-    elif err == 3:
-        i = pos % len(lines)
-        ln = lines[i]
-        if '\t' in ln[1:]:
-            k = ln.index('\t', 1)
-            lines[i] = ln[:k] + ' ' + ln[k:]
-        else:
-            lines[i] = ln.rstrip(' ,') + ' \t1'
-    nl = bool(spec.get('nl', True))
-    text = '\n'.join(lines) + ('\n' if nl else '')
-    if err == 4:
-        text = '\n'.join(lines) + '\n\n'
-    elif err == 5:
-        text = '\n'.join(lines) + '\n' + ['  ', ' ', '\t', ' \t'][pos % 4]
-    b.text = text
+    b.err = spec.get('err', 0) % 6
 
-    # filters: only on named columns every data row really has, never on NULL items
-    b.ignore, b.accept = [], []
-    flt = spec.get('filters') or {}
-    items = list(flt.get('items', []))[:3]
-    scanned = None
-    if items:
+    def render():
+        comment_lead = ic if ic not in (None, '@') else '#'
+        lines = []
+        if spec.get('header', 0) % 2:
+            lines.append(','.join(names))
+        for r, its, t in zip(rows, texts, kinds):
+            if t == 0:
+                lines.append(_render_row(its, r))
+            elif t == 1:
+                body = ['comment 1,2 \t3', 'x', '', ' 1 2 3', ',,.'][r.get('lead', 0) % 5]
+                if ic == '@':
+                    lines.append(['', ' ', '\t', '  '][r.get('trail', 0) % 4] + ['T', 'a', '#', 'Z9'][r.get('step', 0) % 4] + body)
+                else:
+                    lines.append(comment_lead + body)
+            else:
+                lines.append('#' + ['', ' note', '1,2,3'][r.get('lead', 0) % 3])
+        err = spec.get('err', 0) % 6
+        pos = spec.get('errpos', 0)
+        if err == 1:
+            lines.insert(pos % (len(lines) + 1), '')
+        elif err == 2:
+            lines.insert(pos % (len(lines) + 1), [' ', '   ', '\t', '\t\t'][pos % 4])
+        elif err == 3:
+            i = pos % len(lines)
+            ln = lines[i]
+            if '\t' in ln[1:]:
+                k = ln.index('\t', 1)
+                lines[i] = ln[:k] + ' ' + ln[k:]
+            else:
+                lines[i] = ln.rstrip(' ,') + ' \t1'
+        nl = bool(spec.get('nl', True))
+        text = '\n'.join(lines) + ('\n' if nl else '')
+        if err == 4:
+            text = '\n'.join(lines) + '\n\n'
+        elif err == 5:
+            text = '\n'.join(lines) + '\n' + ['  ', ' ', '\t', ' \t'][pos % 4]
+        return text
+
+    def pick_filters(text):
+        """filters only on named columns every data row really has, never on NULL items"""
+        flt = spec.get('filters') or {}
+        items = list(flt.get('items', []))[:3]
+        if not items:
+            return []
         try:
             scanned = nmdata.scan(text, ic)
         except (nmdata.DataError, nmdata.Unspecified):
-            scanned = None
-    if items and scanned:
+            return []
+        if not scanned:
+            return []
         width = min(len(r) for r in scanned)
         safe = [j for j in range(min(width, ncols)) if not names[j].startswith('_DROP') and all(not nmdata.is_null(r[j]) for r in scanned)]
         out = []
@@ -401,8 +407,8 @@ def build(spec, mode='lexical'):
             if not safe:
                 break
             j = safe[c % len(safe)]
-            opn = OPS[op % len(OPS)]
-            colitems = [r[j] for r in scanned]
+            opn = forced.get(len(out), OPS[op % len(OPS)])
+            colitems = [r[j] for r in scanned if r[j] != MISSING_TOKEN]
             if opn in TEXT_OPS:
                 cand = [x for x in colitems if len(x) <= 12 and (nmdata._WORD.match(x) or nmdata._PLAIN_NUMBER.match(x))]
                 pool = cand + [str(val % 10), 'abc']
@@ -417,11 +423,31 @@ def build(spec, mode='lexical'):
             others = [k for k, v in alias.items() if v == names[j] and k != names[j]]
             if others and sp % 2:
                 written = others[0]
-            out.append(dict(col=written, op=opn, value=value, quote=quote % 3, sp=sp % 4))
-        if flt.get('accept'):
-            b.accept = out[:1]
-        else:
-            b.ignore = out
+            out.append(dict(col=written, op=opn, value=value, quote=quote % 3, sp=sp % 4, j=j))
+        return out[:1] if flt.get('accept') else out
+
+    forced = {}
+    text = render()
+    filters = pick_filters(text)
+    # the missing data token (-99) in a filtered column, else in any parsed column
+    b.missing = []
+    for m_ in list(spec.get('miss', []))[:2]:
+        r_, k_, f_ = (list(m_) + [0, 0, 0])[:3]
+        its = texts[datarows[r_ % len(datarows)]]
+        j = filters[k_ % len(filters)]['j'] if filters else k_ % len(its)
+        if filters and f_ % 2:
+            forced[k_ % len(filters)] = ['.GT.', '>', '.GE.', '>=', '.NEN.', '.EQN.', '.GT.', '>='][f_ // 2 % 8]
+        if j >= len(its) or (has_id and j == 0):
+            continue
+        if pk is not None and j < ncols and names[j] in ('MDV', 'EVID', 'AMT'):
+            continue
+        its[j] = MISSING_TOKEN
+        b.missing.append(j)
+    if b.missing or forced:
+        text = render()
+        filters = pick_filters(text)
+    b.text = text
+    b.ignore, b.accept = ([], filters) if (spec.get('filters') or {}).get('accept') else (filters, [])
     b.style = spec.get('style', 0)
     return b
 
@@ -516,6 +542,11 @@ FRAMESPEC = st.fixed_dictionaries(
         how=st.integers(0, 2),
         input=st.integers(0, 15),
         steps=st.lists(st.integers(0, 2), min_size=8, max_size=8),
+        # history of the model the frame is attached to (see c13.run_roundtrip)
+        hist=st.sampled_from([0, 0, 0, 1, 2, 3, 4, 5, 6]),
+        order=st.integers(0, 2),
+        fcol=st.integers(0, 29),
+        mod=st.sampled_from([0, 0, 1]),
     )
 )
 
